@@ -351,6 +351,13 @@ fn plan_exhaustive(rep: &mut Report) {
 
 pub fn run(seed: u64, thorough: bool, cases: Option<u64>) -> Report {
     let mut rep = Report::default();
+    if crate::util::tiny() {
+        matcher_exhaustive(2, 2, &mut rep);
+        let n = cases.unwrap_or(2);
+        rep.merge(par_cases(n, |i, r| excl_and_plan(seed, i, r)));
+        rep.merge(par_cases(n, |i, r| listing(seed, i, r)));
+        return rep;
+    }
     if thorough {
         matcher_exhaustive(5, 6, &mut rep);
     } else {
